@@ -37,6 +37,13 @@ def must_not_spin_shapes():
         'case {\n   "a" -> { }\n   else -> { s += [65]; }\n  }',
         'try {\n   case {\n    "a" -> { }\n    "b" -> { n = 1; }\n   }\n  }\n  catch (nomatch) {\n   h();\n  }',
     ]
+    # appends that overflow inside the handler that was entered because of an overflow (must go outwards, never back to the same handler)
+    handlers = [
+        'try {\n   s += /a+/;\n   "b";\n  }\n  catch (outofspace) {\n   s += [65];\n   "c";\n  }',
+        'try {\n   s += /a+/;\n  }\n  catch (outofspace) {\n   s += /a+/;\n  }\n  "b";',
+        'try {\n   try {\n    s += /a+/;\n    "b";\n   }\n   catch (outofspace) {\n    s += [66];\n    "a";\n   }\n  }\n  catch {\n   h();\n   "c";\n  }',
+        'try {\n   "a";\n   s += [65];\n   s += [66];\n   s += [67];\n  }\n  catch (outofspace) {\n   s += [68];\n   "d";\n  }',
+    ]
     exits = ['if n == 3 {\n   break;\n  }', 'if s.len == 2 {\n   break;\n  }', 'if n > 100 {\n   finish;\n  }', 'if n == 3 {\n   break;\n  }\n  else {\n   n = [n];\n  }', '']
     out = []
     for body in nonconsuming:
@@ -46,6 +53,10 @@ def must_not_spin_shapes():
             src2 = "out int n = 0;\nout str[3] s;\nhook h;\nparser {\n \"k\";\n loop {\n  %s\n  %s\n }\n \"z\";\n}\n" % (ex, body) if ex else None
             if src2:
                 out.append((src2, [], [b"kab", b"kb", b"kaaab", b"kz"]))
+    for body in handlers:
+        for wrap in ("out int n = 0;\nout str[3] s;\nhook h;\nparser {\n loop {\n  %s\n  if n == 3 {\n   break;\n  }\n }\n \"z\";\n}\n",
+                     "out int n = 0;\nout str[3] s;\nhook h;\nparser {\n  %s\n \"z\";\n}\n"):
+            out.append((wrap % body, [], [b"aaab", b"aaaaaac", b"aaaaaaaaaab", b"aaaac", b"aaaad", b"abz", b"aaaaaaaaaaaaaaaaaaaa"]))
     return out
 
 
